@@ -39,6 +39,8 @@ LEVEL_NOTE = 'Trusted: refsolver.py, scripted.py. Not covered: faults beyond max
 
 FAULTS = [['set', 'nan'], ['set', 'inf'], ['set', '-inf'], 'warn', ['raise', 'ZeroDivisionError'], ['raise', 'KeyError'],
           ['raise', 'SolutionError'], ['raise', 'NonConvergenceError'],
+          # exceptions outside the arithmetic / lookup families, and a user-defined one
+          ['raise', 'RuntimeError'], ['raise', 'AssertionError'], ['raise', 'NotImplementedError'], ['raise', 'UserDefined'],
           # a warning of another category than NumPy's RuntimeWarning, from a guarded operation in the model's own code
           # (the result it goes on to store is non-finite / an ordinary finite value)
           ['warn', 'UserWarning', 'inf'], ['warn', 'DeprecationWarning', 2.0]]
@@ -111,6 +113,17 @@ def gen_faults(bound):
         for errors in ERRORS[:4]:
             yield {'nvars': 2, 'n': 2, 't': 1, 'check': ['A'], 'init': {'A': [1.0, 1.0], 'B': [1.0, 'nan'], 'X': [0.0, 0.0]},
                    'script': {}, 'opts': {'min_iter': 0, 'max_iter': 2, 'tol': 0.5, 'failures': 'ignore', 'errors': errors}}
+        # a fault in a variable of a model that declares no check variables (CHECK = []): it is nobody's business
+        for fault in FAULTS:
+            for errors in ERRORS[:4]:
+                for cfe in (True, False):
+                    for max_iter in (1, 3):
+                        yield {'nvars': 2, 'n': 2, 't': 1, 'check': [], 'script': {'1:1': [['A', fault]]}, 'preexisting': True,
+                               'opts': {'min_iter': 0, 'max_iter': max_iter, 'tol': 0.5, 'failures': 'ignore', 'errors': errors,
+                                        'catch_first_error': cfe}}
+        for errors in ERRORS[:4]:
+            yield {'nvars': 2, 'n': 2, 't': 1, 'check': [], 'init': {'A': [1.0, 'nan'], 'B': [1.0, 'inf'], 'X': [0.0, 0.0]},
+                   'script': {}, 'preexisting': True, 'opts': {'min_iter': 0, 'max_iter': 2, 'tol': 0.5, 'failures': 'ignore', 'errors': errors}}
         # hook exceptions under every policy
         for hook in ({'before': 'KeyError'}, {'after': 'ZeroDivisionError'}, {'before': 'SolutionError'}, {'after': 'NonConvergenceError'}):
             for errors in ERRORS[:4]:
